@@ -4,7 +4,7 @@
 set -u
 cd /verif
 names=("$@"); [ ${#names[@]} -eq 0 ] && names=($(ls seeded | grep -E '^C[0-9]+-[0-9]+$' | sort -V))
-printf '%s\n' "${names[@]}" | xargs -P 5 -n 1 ./tools_seedone.sh | sort -V
+printf '%s\n' "${names[@]}" | xargs -P 4 -n 1 ./tools_seedone.sh | sort -V
 python3 - <<'PY'
 import json,glob,os,re
 rows=[]
